@@ -124,6 +124,12 @@ pub fn event(id: usize, c: &ConeSpec, s: &[f64], z: &[f64], x: &[f64], y: &[f64]
     put("identity_reset_mul_hs", dist(&b.ident_hs_x, x) / idt * eps, norm(x));
     let blk_x = if expanded { b.ident_expanded_x.clone() } else { apply_block_of(&b.ident_block, b.hs_is_diagonal, x) };
     put("identity_reset_block", dist(&blk_x, x) / idt * eps, norm(x));
+    // unit_initialization writes the cone's identity element into both vectors, whatever they held before
+    {
+        let e = unit(c);
+        let err = if b.unit_s.len() == e.len() && b.unit_z.len() == e.len() { dist(&b.unit_s, &e) + dist(&b.unit_z, &e) } else { f64::INFINITY };
+        put("unit_start_is_identity", err, 0.0);
+    }
     // Jordan product by definition, commutative, unit element
     let xy = jordan(c, x, y);
     put("circ_definition", dist(&b.x_circ_y, &xy), norm(x) * norm(y));
